@@ -4,11 +4,19 @@
 UNITS = {
     'core_kernel': {'sources': ('core',), 'modes': ('F', 'D')},
     'round': {'sources': ('core', 'fpdec'), 'modes': ('F', 'D')},
+    'add_sub': {'sources': ('core', 'fpdec'), 'modes': ('F', 'D')},
+    'checked_add_sub': {'sources': ('core', 'fpdec'), 'modes': ('F', 'D'), 'module': 'add_sub', 'builder': 'build_checked'},
 }
 
 # property -> list of units whose obligations decide it, plus a filter on which functions /
 # clauses of those units belong to the property (None = all)
 PROPS = {
+    'C01': {
+        'units': ['core_kernel', 'add_sub', 'checked_add_sub'],
+        'title': 'Addition and subtraction are exact or signal overflow',
+        'design_ref': 'DESIGN.md section 7 (C01)',
+        'assumptions': ['R8: i128::from(uN) widening conversions (assume_specification)'],
+    },
     'C05': {
         'units': ['core_kernel', 'round'],
         'title': 'round / checked_round implement all eight rounding modes exactly',
